@@ -100,7 +100,7 @@ def split_delay(tape, total, parts):
 def gen_e1(tape, tier="quick", *, allow_pull=True, allow_cycles=True, allow_delay_push=True,
            allow_omission=True, allow_finish=False, allow_offsets=True, allow_faults=True,
            allow_delay=True, allow_buffering=True, allow_integrating=True, max_sim=5,
-           cycle_regime=None, pull_fanout=True, cycle_chance=(1, 3), adapter_fanout=True):
+           cycle_regime=None, pull_fanout=True, cycle_chance=(1, 3), adapter_fanout=True, allow_sinks=True):
     n_sim = tape.weighted([(2, 5), (3, 6), (4, 3), (5, 2)])
     n_sim = min(n_sim, max_sim)
     n_pull = tape.weighted([(0, 6), (1, 3), (2, 1)]) if allow_pull else 0
@@ -202,6 +202,18 @@ def gen_e1(tape, tier="quick", *, allow_pull=True, allow_cycles=True, allow_dela
                               allow_delay=allow_delay and not integ_up, allow_buffering=allow_buffering,
                               allow_integrating=allow_integrating)
             add_link(src, ci, chain)
+
+    # push-based sinks: components without time step whose inputs pull on every notification
+    if allow_sinks and tape.chance(1, 5):
+        comps.append({"name": f"k{len(comps)}", "kind": "sink", "inputs": [], "outputs": []})
+        k = len(comps) - 1
+        sims_now = [i for i, c in enumerate(comps) if c["kind"] == "sim"]
+        for _ in range(tape.weighted([(1, 3), (2, 1)])):
+            src = sims_now[tape.draw(len(sims_now))]
+            ch = gen_chain(tape, max_len=2, allow_delay_push=False, allow_integrating=False,
+                           allow_delay=allow_delay, allow_buffering=allow_buffering)
+            ch = [a for a in ch if a["kind"] != "delay_pull"]
+            add_link(src, k, ch, share=False)
 
     # diamond through a pull-based component: one consumer reads it twice with different chains
     if allow_pull and n_pull and pull_fanout and tape.chance(1, 5):
